@@ -2,6 +2,7 @@ package harness
 
 import (
 	"bytes"
+	"context"
 	"fmt"
 	"reflect"
 	"sort"
@@ -127,8 +128,32 @@ func drawTargetCfg(c *Case) cache.Config {
 		cfg.ExpirationJitter = 0.5
 	}
 
+	// an observed receiving cache (debug logger and/or stats tracker) takes the instrumented code paths
+	switch c.Weighted("target-observed", 3, 1, 1, 1) {
+	case 1:
+		cfg.Logger = sinkLogger{}
+		c.Class("target-with-debug-logger")
+	case 2:
+		cfg.Stats = newCountTracker()
+		c.Class("target-with-stats")
+	case 3:
+		cfg.Logger, cfg.Stats = sinkLogger{}, newCountTracker()
+		c.Class("target-with-debug-logger")
+		c.Class("target-with-stats")
+	}
+
 	return cfg
 }
+
+// sinkLogger accepts every level and formats what it is given (like a real structured logger would).
+type sinkLogger struct{}
+
+func (sinkLogger) Debug(_ context.Context, msg string, kv ...interface{}) { _ = fmt.Sprint(msg, kv) }
+func (sinkLogger) Warn(_ context.Context, msg string, kv ...interface{})  { _ = fmt.Sprint(msg, kv) }
+func (sinkLogger) Important(_ context.Context, msg string, kv ...interface{}) {
+	_ = fmt.Sprint(msg, kv)
+}
+func (sinkLogger) Error(_ context.Context, msg string, kv ...interface{}) { _ = fmt.Sprint(msg, kv) }
 
 func newDumpCacheCfg(c *Case, family string, cfg cache.Config) dumpCache {
 	var d dumpCache
